@@ -102,6 +102,8 @@ pub enum RClause {
     NoProgress,
     /// the sampler did not return within the watchdog limit (without drawing words)
     Hang,
+    /// the process died inside the sampler (abort, stack overflow, fatal signal)
+    Abort,
 }
 
 impl RClause {
@@ -112,10 +114,11 @@ impl RClause {
             RClause::Panic => "panic",
             RClause::NoProgress => "no_progress",
             RClause::Hang => "hang",
+            RClause::Abort => "abort",
         }
     }
     pub fn parse(s: &str) -> Option<RClause> {
-        [RClause::Range01, RClause::NarSample, RClause::Panic, RClause::NoProgress, RClause::Hang]
+        [RClause::Range01, RClause::NarSample, RClause::Panic, RClause::NoProgress, RClause::Hang, RClause::Abort]
             .into_iter()
             .find(|c| c.name() == s)
     }
